@@ -516,7 +516,7 @@ class HistoryRun:
         err_p = os.path.join(self.slot.dir, f"err-{self.seq}.txt")
         t0 = time.time()
         with open(out_p, "wb") as fo, open(err_p, "wb") as fe:
-            p = subprocess.Popen(argv, cwd=ws, env=env, stdout=fo, stderr=fe, stdin=subprocess.DEVNULL,
+            p = subprocess.Popen(argv, cwd=os.path.join(ws, step["cwd"]) if step.get("cwd") else ws, env=env, stdout=fo, stderr=fe, stdin=subprocess.DEVNULL,
                                  start_new_session=True)
             timed_out = [False]
 
@@ -583,7 +583,7 @@ class HistoryRun:
             "proj": proj,
             "argv": argv,
             "env": {k: v for k, v in env.items() if k not in ("PATH", "LANG", "TERM")},
-            "cwd": ws,
+            "cwd": os.path.join(ws, step["cwd"]) if step.get("cwd") else ws,
             "exit": code,
             "signal": sig,
             "timed_out": timed_out[0],
